@@ -96,6 +96,14 @@ void h_ctx_deregister(void) { build_api();
     g_dereg_allowed = g_mctx != NULL && g_ctx->state == M_CTX_IDLE;
     int r = m_ctx_deregister();
     V_COVER("dereg-ok", r == 0); V_COVER("dereg-looping", r == -EINVAL); V_COVER("dereg-none", r == -EPIPE && g_tls == NULL); V_CANARY(); }
+#ifdef V_CTXDTOR_UNIT
+void h_ctx_dtor(void) { build_api();
+    g_ppdata = malloc(16); g_namebuf = malloc(2); g_udbuf = malloc(sizeof(int)); __CPROVER_assume(g_ppdata && g_namebuf && g_udbuf);
+    g_ctx->ppriv.data = g_ppdata; g_ctx->name = g_namebuf; g_ctx->userdata = g_udbuf; g_fc0 = g_free_calls;
+    ctx_dtor(g_ctx);
+    V_COVER("dtor-owns-name-and-userdata", (vin_cflags & M_CTX_NAME_AUTOFREE) && (vin_cflags & M_CTX_USERDATA_AUTOFREE) && g_free_calls == g_fc0 + 3); V_COVER("dtor-owns-nothing", !(vin_cflags & (M_CTX_NAME_AUTOFREE | M_CTX_USERDATA_AUTOFREE)) && g_free_calls == g_fc0 + 1);
+    V_CANARY(); }
+#endif
 #ifdef V_CTXNEW_UNIT
 void h_ctx_new(void) { build_api(); static const char nm[2] = "c";
     V_ASSUME(vin_nfds <= 0 && vin_nfds > -200 && vin_pw_errno <= 0 && vin_pw_errno > -200);
